@@ -113,6 +113,8 @@ type tworld struct {
 	hasLinks bool // the last component may be a symbolic link
 	hasDir   bool // the directory component is a symbolic link
 	stealth  bool
+	pfx      string            // counter prefix: "template" (in process) or "bintmpl" (real binary)
+	osPath   string            // how the harness itself reads "the configured path" for the model comparison ("" = path)
 	store    map[string]tstate // regular files in <base>/store
 	rel      map[int]*fnode    // real directory -> its last component
 	cur      int               // the real directory the path leads through; -1: none (current removed)
@@ -209,13 +211,13 @@ func (w *tworld) point(link, target string) error {
 		if err := os.Symlink(target, tmp); err != nil {
 			return err
 		}
-		w.r.Count("template_links_pointed:rename-over", 1)
+		w.r.Count(w.pfx+"_links_pointed:rename-over", 1)
 		return os.Rename(tmp, link)
 	}
 	if err := os.Remove(link); err != nil && !os.IsNotExist(err) {
 		return err
 	}
-	w.r.Count("template_links_pointed:remove-create", 1)
+	w.r.Count(w.pfx+"_links_pointed:remove-create", 1)
 	return os.Symlink(target, link)
 }
 
@@ -248,7 +250,7 @@ func (w *tworld) writeInPlace(ns tstate) error {
 	}
 	if n.link != "" {
 		w.store[n.link] = ns
-		w.r.Count("template_link_targets_written_in_place", 1)
+		w.r.Count(w.pfx+"_link_targets_written_in_place", 1)
 	} else {
 		n.st = ns
 	}
@@ -372,14 +374,18 @@ func (w *tworld) pointCurrent(k int) error {
 // osView reads the template through the configured path, as the operating
 // system resolves it now.
 func (w *tworld) osView() (kind string, content string) {
-	b, err := os.ReadFile(w.path)
+	p := w.path
+	if w.osPath != "" {
+		p = w.osPath
+	}
+	b, err := os.ReadFile(p)
 	if err == nil {
 		return "file", string(b)
 	}
 	if os.IsNotExist(err) {
 		return "missing", ""
 	}
-	if fi, serr := os.Stat(w.path); serr == nil && fi.IsDir() {
+	if fi, serr := os.Stat(p); serr == nil && fi.IsDir() {
 		return "directory", ""
 	}
 	return "error:" + err.Error(), ""
@@ -405,13 +411,34 @@ func isLinkChange(kind string, wasLink bool) bool {
 	return false
 }
 
+// tmplHost is where a template history runs: hsrv in process (nil) or the real
+// binary (bintemplate.go).
+type tmplHost struct {
+	eng, pfx string
+	base     string // the directory that holds current/ store/ releases/
+	startup  string // "" = as the in-process engine draws it; present | missing | dangling
+	tour     []string
+	// start launches the server once the start-up state of the path exists
+	start func(w *tworld) (addr string, stop func(), cfg any, err error)
+	// osPath: how the harness reads the configured path (its spelling resolved by the operating system)
+	osPath string
+}
+
 func (c *ctx) templateSequence(seq, steps int) {
+	c.templateSequenceOn(seq, steps, nil)
+}
+
+func (c *ctx) templateSequenceOn(seq, steps int, h *tmplHost) {
 	r := c.r
-	rng := r.Rng("template", seq)
+	eng, pfx := "template", "template"
 	base := filepath.Join(r.Work, fmt.Sprintf("tmpl-%d", seq))
+	if h != nil {
+		eng, pfx, base = h.eng, h.pfx, h.base
+	}
+	rng := r.Rng(eng, seq)
 	layout := layouts[(seq/2)%len(layouts)]
 	w := &tworld{
-		r: r, rng: rng, base: base, layout: layout,
+		r: r, rng: rng, base: base, layout: layout, pfx: pfx,
 		path:     filepath.Join(base, "current", tmplName),
 		hasLinks: strings.Contains(layout, "link") && layout != "dirlink",
 		hasDir:   strings.HasPrefix(layout, "dirlink"),
@@ -420,21 +447,30 @@ func (c *ctx) templateSequence(seq, steps int) {
 		rel:      map[int]*fnode{},
 		cur:      -1,
 	}
+	if h != nil {
+		w.osPath = h.osPath
+	}
 	for _, d := range []string{base, filepath.Join(base, "store")} {
 		if err := os.MkdirAll(d, 0o755); err != nil {
-			r.Inconclusive(fmt.Sprintf("template %d: %v", seq, err))
+			r.Inconclusive(fmt.Sprintf("%s %d: %v", eng, seq, err))
 			return
 		}
 	}
 	if w.stealth {
-		r.Count("template_stealth_sequences", 1)
+		r.Count(pfx+"_stealth_sequences", 1)
 	}
-	r.Count("template_layout:"+layout, 1)
+	r.Count(pfx+"_layout:"+layout, 1)
 
 	// the state at start-up
 	var ferr error
 	initial := missing
-	if layout == "plain" {
+	dangling := false
+	if h != nil && h.startup != "" {
+		if h.startup == "present" {
+			initial = validState([]string{"A", "B"}[rng.IntN(2)], seq*1000000+999999)
+		}
+		dangling = h.startup == "dangling"
+	} else if layout == "plain" {
 		if rng.IntN(2) == 0 {
 			initial = validState("A", seq*1000000+999999)
 		}
@@ -450,32 +486,66 @@ func (c *ctx) templateSequence(seq, steps int) {
 			} else {
 				ferr = w.writeInPlace(initial)
 			}
+		} else if ferr == nil && dangling && w.hasLinks {
+			ferr = w.relinkTo("gone-at-startup.tmpl") // the link exists and leads nowhere
 		}
 	} else if initial.kind != "missing" {
 		var k int
 		if k, ferr = w.newRelease(initial); ferr == nil {
 			ferr = w.pointCurrent(k)
 		}
+	} else if dangling {
+		// current -> a release without a template (or with a link that leads nowhere)
+		var k int
+		if k, ferr = w.newRelease(missing); ferr == nil {
+			if ferr = w.pointCurrent(k); ferr == nil && w.hasLinks {
+				ferr = w.relinkTo("gone-at-startup.tmpl")
+			}
+		}
 	}
 	if ferr != nil {
-		r.Inconclusive(fmt.Sprintf("template %d: preparing layout %s: %v", seq, layout, ferr))
+		r.Inconclusive(fmt.Sprintf("%s %d: preparing layout %s: %v", eng, seq, layout, ferr))
+		return
+	}
+	if ok, osk := w.agrees(w.visible()); !ok {
+		r.Inconclusive(fmt.Sprintf("%s %d (layout %s): at start-up the harness's model says the path leads to %s, the operating system says %s (%s)", eng, seq, layout, w.visible().kind, osk, w.describe()))
 		return
 	}
 	if layout != "plain" && initial.kind != "missing" {
-		r.Count("template_symlink_resolves_at_startup", 1)
+		r.Count(pfx+"_symlink_resolves_at_startup", 1)
+	}
+	if initial.kind == "missing" {
+		r.Count(pfx+"_missing_at_startup", 1)
+		r.Count(pfx+"_missing_at_startup:"+layout, 1)
+		if dangling && layout != "plain" {
+			r.Count(pfx+"_dangling_at_startup", 1)
+		}
 	}
 	startDesc := w.describe()
 
-	laddr := "127.0.0.1:0"
-	if seq%3 == 2 {
-		laddr = "[::1]:0"
+	var addr string
+	var cfg any
+	if h != nil {
+		a, stop, cf, err := h.start(w)
+		if err != nil {
+			r.Inconclusive(fmt.Sprintf("%s %d: server did not start: %v", eng, seq, err))
+			return
+		}
+		defer stop()
+		addr, cfg = a, cf
+	} else {
+		laddr := "127.0.0.1:0"
+		if seq%3 == 2 {
+			laddr = "[::1]:0"
+		}
+		l, err := startLsn("tmpl", laddr, hk.Config{TmplF: w.path})
+		if err != nil {
+			r.Inconclusive(fmt.Sprintf("template %d: server did not start: %v", seq, err))
+			return
+		}
+		defer l.s.Stop()
+		addr = l.s.Addr
 	}
-	l, err := startLsn("tmpl", laddr, hk.Config{TmplF: w.path})
-	if err != nil {
-		r.Inconclusive(fmt.Sprintf("template %d: server did not start: %v", seq, err))
-		return
-	}
-	defer l.s.Stop()
 
 	kinds := append([]string(nil), fileKinds...)
 	if w.hasLinks {
@@ -485,6 +555,11 @@ func (c *ctx) templateSequence(seq, steps int) {
 		kinds = append(kinds, dirKinds...)
 	}
 	tour := tours[layout]
+	if h != nil {
+		tour = h.tour
+	}
+	missingAtStart := initial.kind == "missing"
+	servedSinceStart := false
 
 	var hist []map[string]any
 	var sig []string
@@ -576,26 +651,26 @@ func (c *ctx) templateSequence(seq, steps int) {
 			ferr = fmt.Errorf("unknown step kind %q", kind)
 		}
 		if ferr != nil {
-			r.Inconclusive(fmt.Sprintf("template %d step %d (%s, layout %s): %v", seq, step, kind, layout, ferr))
+			r.Inconclusive(fmt.Sprintf(eng+" %d step %d (%s, layout %s): %v", seq, step, kind, layout, ferr))
 			return
 		}
 		st := w.visible()
 		if ok, osk := w.agrees(st); !ok {
-			r.Inconclusive(fmt.Sprintf("template %d step %d (%s, layout %s): the harness's model says the path leads to %s #%d, the operating system says %s (%s)", seq, step, kind, layout, st.kind, st.nonce, osk, w.describe()))
+			r.Inconclusive(fmt.Sprintf(eng+" %d step %d (%s, layout %s): the harness's model says the path leads to %s #%d, the operating system says %s (%s)", seq, step, kind, layout, st.kind, st.nonce, osk, w.describe()))
 			return
 		}
 		linkChange := isLinkChange(kind, wasLink)
-		r.Count("template_steps:"+kind, 1)
-		r.Count("template_steps", 1)
-		r.Count("template_state:"+st.kind, 1)
+		r.Count(pfx+"_steps:"+kind, 1)
+		r.Count(pfx+"_steps", 1)
+		r.Count(pfx+"_state:"+st.kind, 1)
 		if (prev == "missing" || prev == "directory") && strings.HasPrefix(st.kind, "valid") {
-			r.Count("template_recreations", 1)
+			r.Count(pfx+"_recreations", 1)
 			if linkChange {
-				r.Count("template_recreations_by_symlink", 1)
+				r.Count(pfx+"_recreations_by_symlink", 1)
 			}
 		}
 		if kind == "delete" && wasLink {
-			r.Count("template_links_removed", 1)
+			r.Count(pfx+"_links_removed", 1)
 		}
 		// the request
 		var raw, wantURL string
@@ -610,18 +685,18 @@ func (c *ctx) templateSequence(seq, steps int) {
 			wantURL = fmt.Sprintf("hd%d-%d.example", seq, step)
 			raw = fmt.Sprintf("GET /c HTTP/1.1\r\nHost: other.example\r\nc2: %s\r\nConnection: close\r\n\r\n", wantURL)
 		}
-		res, conn, err := hk.RoundTrip(l.s.Addr, "", []byte(raw), hk.Bound)
+		res, conn, err := hk.RoundTrip(addr, "", []byte(raw), hk.Bound)
 		if err != nil || res == nil {
-			r.Inconclusive(fmt.Sprintf("template %d step %d: request failed: %v", seq, step, err))
+			r.Inconclusive(fmt.Sprintf(eng+" %d step %d: request failed: %v", seq, step, err))
 			return
 		}
 		r.Eval(1)
 		r.Distinct("tmpl|" + layout + "|" + prev + ">" + kind + ">" + st.kind + "|" + raw[:strings.Index(raw, "\r\n")][:8])
 		if linkChange {
-			r.Count("template_symlink_changes_checked", 1)
-			r.Count("template_symlink_changes_checked:"+kind, 1)
+			r.Count(pfx+"_symlink_changes_checked", 1)
+			r.Count(pfx+"_symlink_changes_checked:"+kind, 1)
 		} else if through && kind != "noop" {
-			r.Count("template_edits_below_symlink_checked", 1)
+			r.Count(pfx+"_edits_below_symlink_checked", 1)
 		}
 		body := string(res.Body)
 		show := body
@@ -634,20 +709,32 @@ func (c *ctx) templateSequence(seq, steps int) {
 		}
 		sig = append(sig, kind)
 		wit := map[string]any{"sequence": seq, "step": step, "layout": layout, "configured_path": w.path, "path_at_startup": startDesc, "path_now": w.describe(), "op": kind, "file_state": st.kind, "file_content": trunc(st.content, 300), "previous_state": prev, "request": raw, "status": res.Status, "body": show, "history_so_far": strings.Join(sig, ",")}
+		if cfg != nil {
+			wit["program"] = cfg
+		}
+		if missingAtStart {
+			// the template did not exist when the server started
+			if st.kind == "missing" && !servedSinceStart {
+				r.Count(pfx+"_requests_while_still_missing_since_startup", 1)
+			} else if strings.HasPrefix(st.kind, "valid") && !servedSinceStart {
+				servedSinceStart = true
+				r.Count(pfx+"_created_after_startup_checked", 1)
+			}
+		}
 		pin := ""
 		if conn != nil && len(conn.Chain) > 0 {
 			pin = hk.Pin(conn.Chain[0])
 		}
 		switch st.kind {
 		case "valid-A", "valid-B", "empty":
-			r.Count("template_valid_checked", 1)
+			r.Count(pfx+"_valid_checked", 1)
 			if res.Status != 200 {
-				c.violate("template", seq, "template-stale", fmt.Sprintf("template file holds a valid template (%s, after %s; %s) but /c answered %d: the response does not reflect the file as of this request", st.kind, kind, w.describe(), res.Status), wit)
+				c.violate(eng, seq, "template-stale", fmt.Sprintf("template file holds a valid template (%s, after %s; %s) but /c answered %d: the response does not reflect the file as of this request", st.kind, kind, w.describe(), res.Status), wit)
 				continue
 			}
 			if st.kind == "empty" {
 				if body != "" {
-					c.violate("template", seq, "template-stale", fmt.Sprintf("template file is empty (after %s over %s) but /c served %d bytes", kind, prev, len(body)), wit)
+					c.violate(eng, seq, "template-stale", fmt.Sprintf("template file is empty (after %s over %s) but /c served %d bytes", kind, prev, len(body)), wit)
 				}
 				continue
 			}
@@ -658,33 +745,33 @@ func (c *ctx) templateSequence(seq, steps int) {
 			} else if m := tmplBRe.FindStringSubmatch(body); m != nil && st.kind == "valid-B" {
 				n, fp, id1, u1, u2, id2, u3, id3 = m[1], m[2], m[3], m[4], m[5], m[6], m[7], m[8]
 			} else {
-				c.violate("template", seq, "template-stale", fmt.Sprintf("template file holds %s #%d (after %s over %s; %s) but the body was not rendered from it", st.kind, st.nonce, kind, prev, w.describe()), wit)
+				c.violate(eng, seq, "template-stale", fmt.Sprintf("template file holds %s #%d (after %s over %s; %s) but the body was not rendered from it", st.kind, st.nonce, kind, prev, w.describe()), wit)
 				continue
 			}
 			if n != strconv.Itoa(st.nonce) {
-				c.violate("template", seq, "template-stale", fmt.Sprintf("template file holds %s #%d (after %s over %s; %s) but the body was rendered from #%s", st.kind, st.nonce, kind, prev, w.describe(), n), wit)
+				c.violate(eng, seq, "template-stale", fmt.Sprintf("template file holds %s #%d (after %s over %s; %s) but the body was rendered from #%s", st.kind, st.nonce, kind, prev, w.describe(), n), wit)
 				continue
 			}
-			r.Count("template_renders_matched", 1)
+			r.Count(pfx+"_renders_matched", 1)
 			if linkChange {
-				r.Count("template_renders_matched_after_symlink_change", 1)
+				r.Count(pfx+"_renders_matched_after_symlink_change", 1)
 			}
 			if u1 != wantURL || u2 != wantURL || u3 != wantURL {
-				c.violate("template", seq, "c2-precedence:template", fmt.Sprintf("template rendered URL %q/%q/%q, expected %q", u1, u2, u3, wantURL), wit)
+				c.violate(eng, seq, "c2-precedence:template", fmt.Sprintf("template rendered URL %q/%q/%q, expected %q", u1, u2, u3, wantURL), wit)
 			}
 			if id1 != id2 || id1 != id3 {
-				c.violate("template", seq, "script-two-ids-differ", fmt.Sprintf("one rendering carries IDs %q, %q, %q", id1, id2, id3), wit)
+				c.violate(eng, seq, "script-two-ids-differ", fmt.Sprintf("one rendering carries IDs %q, %q, %q", id1, id2, id3), wit)
 			}
-			c.addID("template", seq, id1, fmt.Sprintf("template %d step %d", seq, step))
+			c.addID(eng, seq, id1, fmt.Sprintf("%s %d step %d", eng, seq, step))
 			r.Count("pins_compared", 1)
 			if fp != pin {
-				c.violate("template", seq, "script-pin-mismatch", fmt.Sprintf("template rendered fingerprint %q, the key presented in this handshake hashes to %q", fp, pin), wit)
+				c.violate(eng, seq, "script-pin-mismatch", fmt.Sprintf("template rendered fingerprint %q, the key presented in this handshake hashes to %q", fp, pin), wit)
 			}
 		default: // missing directory unparsable exec-failing
-			r.Count("template_errors_checked", 1)
+			r.Count(pfx+"_errors_checked", 1)
 			r.Count("error_responses_checked", 1)
 			if linkChange {
-				r.Count("template_errors_checked_after_symlink_change", 1)
+				r.Count(pfx+"_errors_checked_after_symlink_change", 1)
 			}
 			if res.Status < 400 {
 				key := "template-error-with-2xx"
@@ -696,16 +783,16 @@ func (c *ctx) templateSequence(seq, steps int) {
 					key = "template-missing-served-default"
 					what += ": the built-in default script was served instead of an error"
 				}
-				c.violate("template", seq, key, what, wit)
+				c.violate(eng, seq, key, what, wit)
 			}
 			if len(body) > 0 {
-				c.violate("template", seq, "template-error-with-body", fmt.Sprintf("template file is %s (after %s over %s); status %d came with a %d-byte body (a partial or stale script)", st.kind, kind, prev, res.Status, len(body)), wit)
+				c.violate(eng, seq, "template-error-with-body", fmt.Sprintf("template file is %s (after %s over %s); status %d came with a %d-byte body (a partial or stale script)", st.kind, kind, prev, res.Status, len(body)), wit)
 			}
 		}
 	}
 	r.Eval(1) // the history as a whole, besides its steps
 	r.Distinct("tmpl-history|" + layout + "|" + strings.Join(sig, ","))
-	r.Sample("template-history:"+layout, map[string]any{"sequence": seq, "layout": layout, "configured_path": w.path, "path_at_startup": startDesc, "steps": steps, "first_steps": hist})
+	r.Sample(eng+"-history:"+layout, map[string]any{"program": cfg, "sequence": seq, "layout": layout, "configured_path": w.path, "path_at_startup": startDesc, "steps": steps, "first_steps": hist})
 }
 
 // templateFloors: the symlink dimension must have been exercised: every layout,
